@@ -1040,8 +1040,8 @@ func (self *LockManager) ProcessLockData(command *protocol.LockCommand, lock *Lo
 	case protocol.LOCK_DATA_COMMAND_TYPE_SHIFT:
 		lengthValue := int(lockCommandData.GetShiftLengthValue())
 		if self.currentData != nil && self.currentData.GetData() != nil && lengthValue > 0 {
-			if lengthValue > len(currentLockData.data) {
-				lengthValue = len(currentLockData.data)
+			if lengthValue > currentLockData.GetValueSize() {
+				lengthValue = currentLockData.GetValueSize()
 			}
 			dataLen, valueOffset := len(currentLockData.data)-lengthValue-4, currentLockData.GetValueOffset()
 			data := make([]byte, dataLen+4)
